@@ -4,8 +4,8 @@
    operations of the alphabet of Steps.v (selection, take, concat, copy, dropna, pickle, element assignment, field
    edits, list-struct round trip): same logical results step by step, or both fail.  It is a corollary of the
    all-layout refinement theorems; the one layout hypothesis the refinement needs (norm_missing, part of inv_b) cannot be
-   dropped: C04_hidden_refuted exhibits two layouts of ONE logical column that the faithful model (and the real code,
-   known finding KF-hidden-children) tells apart. *)
+   dropped: C04_hidden_refuted exhibits two layouts of ONE logical column that the faithful model tells apart (the former
+   finding KF-hidden-children: repaired, the constructor now establishes norm_missing for every accepted input). *)
 From Coq Require Import String List Arith Bool ZArith.
 Import ListNotations.
 From NP Require Import Base Values Arrow Abs Kernels Logical ExtArray Codec Steps
